@@ -6,6 +6,7 @@ MUT="$1"; ID="$2"; B="${3:-}"
 D=$(mktemp -d /tmp/lvmut.XXXXXX)
 rsync -a --exclude .git --exclude '*.pyc' /repo/ "$D/"
 case "$MUT" in
+  py:*) /venv/bin/python /verif/tools/mutants.py "${MUT#py:}" "$D";;
   sed:*) f=$(echo "$MUT" | cut -d: -f2); e=$(echo "$MUT" | cut -d: -f3-); sed -i "$e" "$D/$f"; (cd "$D" && diff -u "/repo/$f" "$f" | head -20 || true);;
   *) (cd "$D" && patch -p1 < "$MUT");;
 esac
